@@ -199,7 +199,8 @@ func realiseBase(v J, r *Repr, path, h string) (any, error) {
 		return s, nil
 	case "arr":
 		items := jarr(v, "v")
-		out := make([]any, len(items))
+		// spare capacity, as a slice grown by append has: a filter that appends in place would write into it
+		out := make([]any, len(items), len(items)+3)
 		for i, it := range items {
 			e, err := realise(jobj(it), r, path+"/"+strconv.Itoa(i))
 			if err != nil {
@@ -312,6 +313,22 @@ func realiseBase(v J, r *Repr, path, h string) (any, error) {
 				t[k] = s
 			}
 			return t, nil
+		case "intkeys", "anykeys":
+			// the same entries under integer keys (the keys spell integers), as YAML decoders produce
+			ti := map[int]any{}
+			ta := map[any]any{}
+			for _, k := range keys {
+				n, err := strconv.Atoi(k)
+				if err != nil {
+					return nil, fmt.Errorf("repr intkeys: key %q", k)
+				}
+				ti[n] = out[k]
+				ta[n] = out[k]
+			}
+			if h == "intkeys" {
+				return ti, nil
+			}
+			return ta, nil
 		case "shuffled":
 			// same contents, built in reverse insertion order (C02)
 			t := make(map[string]any, len(out))
